@@ -441,6 +441,7 @@ C08_UNITS = [
     tmunit("same_interval", [ta("a1", [("sleep", 10 * MSNS), ("sleep", 10 * MSNS)]), ta("a2", [("sleep", 10 * MSNS), ("tpark", 10 * MSNS)]),
                              ta("a3", [("tpark", 10 * MSNS), ("sleep", 10 * MSNS)]), ta("a4", [("sem", 10 * MSNS), ("recv", 10 * MSNS)]),
                              ta("t1", [("tpark", 2 * MSNS), ("sem", 1_500_000)], co=False)], victims=["a1", "a3"]),
+    tmunit("cq_poll_rearm", [ta("a1", [("cqpoll", 20 * MSNS), ("cqpoll", 3 * MSNS)]), ta("a2", [("sleep", 5 * MSNS), ("sleep", 30 * MSNS)])], n=150),
 ] + _pick("C10", ("timed3", "timed4", "flag3"), "sem_") + _pick("C11", ("timed3",), "cv_") \
   + _pick("C06", ("mpsc_timed", "mpmc_timed", "mpmc_deep_timed"), "chan_") + _pick("C16", ("poll3",), "cq_")
 PROPS["C08"] = dict(assumptions=["the generator switches stacks correctly; SC memory"], units=C08_UNITS)
